@@ -3,14 +3,15 @@ from kvfile import KVFile
 
 
 def saver(resource, db, batch_size):
-    gen = db.insert_generator(
-        (('{:08x}'.format(idx), row)
-         for idx, row
-         in enumerate(resource)),
-        batch_size=batch_size
-    )
-    for _, row in gen:
+    batch = []
+    for idx, row in enumerate(resource):
+        # Snapshot the row before handing it downstream, later in-place changes must not leak into the copy
+        batch.append(('{:08x}'.format(idx), copy.deepcopy(row)))
+        if len(batch) >= batch_size:
+            db.insert(batch, batch_size=batch_size)
+            batch = []
         yield row
+    db.insert(batch, batch_size=batch_size)
 
 
 def loader(db):
